@@ -98,7 +98,7 @@ Qed.
    2^32-1 (after 2^32-1 allocations).  One sync adds services 1 and 2: service 1 gets id 2^32-1, the counter wraps,
    service 2 gets id 0 - the id of service 0.  The completed sync is not exact. *)
 Definition wr_ep (a : N) := Ep a 8000 true false 3232235522.
-Definition wr_s (n : N) := Svc n (174063617 + n) 80 6 0 [] [] false false 0 false.
+Definition wr_s (n : N) := Svc n (174063617 + n) 80 6 0 [] [] false false 0 false false.
 Definition wr_st0 : state := [(wr_s 0, [wr_ep 167837953])].
 Definition wr_st1 : state := [(wr_s 0, [wr_ep 167837953]); (wr_s 1, [wr_ep 167837954]); (wr_s 2, [wr_ep 167837955; wr_ep 167837956])].
 Definition wr_check : option (N * bool) :=
